@@ -57,9 +57,22 @@ def prove(pid, rep, extra_files=()):
                       "Print Assumptions is not 'Closed under the global context' for every theorem", True)
         return cov
     cov["discharged"] = len(thms)
+    if CUR_TIER == "thorough":
+        # independent re-check of the compiled property file and everything it depends on, with the axiom report
+        rc, o, e = vlib.run(["coqchk", "-silent", "-o", "-R", vlib.COQ, "Kessoku", "Kessoku.Properties.%s" % pid], timeout=3000)
+        txt = o + e
+        m = re.search(r"\* Axioms:\s*(.*?)\n\s*\n", txt, re.S)
+        axioms_chk = m.group(1).strip() if m else "?"
+        cov["coqchk"] = dict(exit=rc, axioms=axioms_chk, nothing_relies_on_type_in_type="<none>" in (re.search(r"type-in-type:\s*(.*)", txt) or [None, ""])[1],
+                             cmd="coqchk -silent -o -R coq Kessoku Kessoku.Properties.%s" % pid)
+        cov["assumptions_report"].append("coqchk: Axioms: %s" % axioms_chk)
+        if rc != 0 or axioms_chk != "<none>":
+            rep.violation("coqchk", dict(theorem_file="coq/Properties/%s.v" % pid, exit=rc, report=txt[-2500:]),
+                          "coqchk does not accept the compiled development without axioms (exit %d, axioms: %s)" % (rc, axioms_chk[:120]), True)
     return cov
 
 
+CUR_TIER = "quick"
 # ------------------------------------------------------------------ per-property deciders
 
 def static_part(pid, rep, S, components, cov):
@@ -905,6 +918,8 @@ def main():
         print(open(path).read())
         return 0
     os.environ.setdefault("VERIF_TIER", tier)
+    global CUR_TIER
+    CUR_TIER = tier
     cov = {}
     try:
         if pid not in CHECKS:
